@@ -23,7 +23,8 @@ MANIFEST = {
             'exceeding a node was granted, and the resources figure; the '
             'occupancy states are those reached by the gated histories '
             '(arrivals, completions, cancels between loop steps).'
-            '  Third session: the application-level shape workload builds NUMA nodes (a NUMA rank must stay in one domain and still carry the requested lfs/mem) and shared cores.',
+            '  Third session: the application-level shape workload builds NUMA nodes (a NUMA rank must stay in one domain and still carry the requested lfs/mem) and shared cores.'
+            '  Two or three application threads place and release ranks on one NodeList (yield before the node locks): every granted slot keeps the requested shape, all nodes are free after all releases.',
     'note': 'Continuous scheduler; colocate rule checked as "nodes subset of '
             'all nodes used earlier for that tag"; sampled histories.'}
 RULE   = ('same gated histories as C01 (biased to shapes that exactly fill / '
